@@ -71,16 +71,17 @@ def r06_1(rep: Report) -> None:
     g = need(find_func(need(find_class(base, 'RequestHandlerBase'), 'RequestHandlerBase'),
                        'get_http_range'), 'get_http_range')
     L = g.args.args[1].arg
-    opens = [n for n in ast.walk(g) if isinstance(n, (ast.Assign, ast.AnnAssign)) and n.value is not None
-             and norm(n.targets[0] if isinstance(n, ast.Assign) else n.target) == 'end'
-             and linear(n.value) == {L: 1, '': -1}]
-    if len(opens) >= 1:
-        rep.ok(rid, 'dashlive/server/requesthandler/base.py::RequestHandlerBase.get_http_range',
-               'open range ends at length - 1')
+    ends = [n for n in ast.walk(g) if isinstance(n, (ast.Assign, ast.AnnAssign)) and n.value is not None
+            and norm(n.targets[0] if isinstance(n, ast.Assign) else n.target) == 'end']
+    defaults = [n for n in ends if linear(n.value) is not None and set(linear(n.value)) <= {L, ''}
+                and L in linear(n.value)]
+    gc = 'dashlive/server/requesthandler/base.py::RequestHandlerBase.get_http_range'
+    if defaults and all(linear(n.value) == {L: 1, '': -1} for n in defaults):
+        rep.ok(rid, gc, 'open range ends at length - 1', f'{len(defaults)} default end(s)')
     else:
-        rep.fail(rid, 'dashlive/server/requesthandler/base.py::RequestHandlerBase.get_http_range',
-                 'open range ends at length - 1',
-                 'an open-ended / suffix range does not end at content_length - 1', g)
+        bad = [norm(n) for n in defaults if linear(n.value) != {L: 1, '': -1}]
+        rep.fail(rid, gc, 'open range ends at length - 1',
+                 f'an open-ended / suffix range does not end at {L} - 1 ({bad or "no default end found"})', g)
 
 
 def r06_2(rep: Report) -> None:
